@@ -1,6 +1,7 @@
 #![allow(dead_code)]
 mod builtins;
 mod c11;
+mod c12;
 mod c17;
 mod check;
 mod runner;
@@ -161,6 +162,7 @@ fn main() {
 fn get_check(id: &str) -> Option<&'static dyn check::Check> {
     match id {
         "C11" => Some(&c11::C11),
+        "C12" => Some(&c12::C12),
         "C17" => Some(&c17::C17),
         _ => None,
     }
